@@ -42,6 +42,8 @@ mod subscribers;
 #[cfg(feature = "telemetry")]
 pub mod telemetry;
 mod worterbuch;
+#[cfg(feature = "verif")]
+pub mod verif;
 
 pub use config::*;
 use tosub::SubsystemHandle;
